@@ -175,7 +175,7 @@ def all_formats(order):
             yield Format(tuple(modes), tuple(perm))
 
 
-def symbolic_structure(m, fmt: Format, tag="T"):
+def symbolic_structure(m, fmt: Format, tag="T", bounded_dims=False):
     """A FakeStruct holding an arbitrary well-formed stored tensor + the oracle's view of it."""
     f = FakeFFI()
     order = fmt.order
@@ -190,8 +190,12 @@ def symbolic_structure(m, fmt: Format, tag="T"):
         else:
             t = z3.Int(f"{tag}_dim{d}")
             m.assume(t >= 0)
-            m.assume(t <= INT_MAX)
-            dims.append(SymInt(t))  # never concretised
+            if bounded_dims:
+                m.assume(t <= 3)
+                dims.append(SymInt(t, dom=(0, 3)))  # concretisable: a reader that wrongly uses it still runs
+            else:
+                m.assume(t <= INT_MAX)
+                dims.append(SymInt(t))  # never concretised
     levels = []
     oracle_levels = []
     n_prev_t = z3.IntVal(1)
@@ -271,6 +275,94 @@ def oracle_entries(m, fmt, view):
 
 
 def reader_case(fmt: Format, stats):
+    """Two passes: compressed-only dimension sizes bounded by 3 (so that a reader that wrongly lets
+    them influence array extents still runs and is caught), then free up to 2^31-1."""
+    problems = _reader_pass(fmt, stats, True)
+    if not problems:
+        problems = _reader_pass(fmt, stats, False)
+    return problems
+
+
+def concrete_structure(m, fmt, view):
+    """The solver's current model as raw taco arrays."""
+    m.check()
+    model = m.solver.model()
+
+    def iv(t):
+        return model.eval(t, model_completion=True).as_long()
+
+    dims = [iv(x.t) for x in view["dims"]]
+    indices = []
+    n_prev = 1
+    for l, mode in enumerate(fmt.modes):
+        if mode == Mode.dense:
+            indices.append([])
+            n_prev *= dims[fmt.ordering[l]]
+        else:
+            pos, crd, n = view["levels"][l]
+            p = [iv(pos[k]) for k in range(n_prev + 1)]
+            indices.append([p, [iv(crd[q]) for q in range(p[-1])]])
+            n_prev = p[-1]
+    vals = []
+    for q in range(n_prev):
+        v = model.eval(view["vals"][q].t, model_completion=True)
+        vals.append(float(v.numerator_as_long()) / float(v.denominator_as_long()) + 1.0 + q)
+    return dims, indices, vals
+
+
+def replay_reader(fmt, dims, indices, vals):
+    """Real cffi-backed Tensor on the concrete structure: items() and a pickle round trip against a
+    direct walk of the arrays."""
+    import pickle
+    import subprocess
+    import sys
+    import os
+    import json
+
+    script = r"""
+import json, sys, pickle
+spec = json.load(sys.stdin)
+from tensora import Tensor
+from tensora.compile import taco_structure_to_cffi
+from tensora.format import parse_format
+fmt = parse_format(spec["format"]).unwrap()
+t = Tensor(taco_structure_to_cffi(spec["indices"], spec["vals"], mode_types=tuple(m.c_int for m in fmt.modes),
+                                  dimensions=tuple(spec["dims"]), mode_ordering=fmt.ordering))
+out = {"items": [[list(c), v] for c, v in t.items()]}
+try:
+    t2 = pickle.loads(pickle.dumps(t))
+    out["pickled"] = [[list(c), v] for c, v in t2.items()]
+    out["pickled_format"] = t2.format.deparse()
+except Exception as e:
+    out["pickle_error"] = f"{type(e).__name__}: {e}"[:200]
+print("RESULT " + json.dumps(out))
+"""
+    env = dict(os.environ)
+    env["PYTHONPATH"] = os.path.join(os.environ.get("TENSORA_VERIF_REPO", "/repo"), "src")
+    p = subprocess.run([sys.executable, "-c", script], input=json.dumps({"format": fmt.deparse(), "dims": dims,
+                       "indices": indices, "vals": vals}), capture_output=True, text=True, env=env, timeout=120)
+    del pickle
+    if p.returncode != 0:
+        return {"status": "crash", "stderr": p.stderr[-400:]}
+    for line in p.stdout.splitlines():
+        if line.startswith("RESULT "):
+            got = json.loads(line[7:])
+            # direct walk
+            from ..replay import raw_entries
+
+            want = [[list(c), vals[pos]] for c, pos in raw_entries(fmt, dims, indices, vals)]
+            bad = []
+            if got["items"] != want:
+                bad.append("items() differs from the stored entries")
+            if "pickle_error" in got:
+                bad.append("pickle round trip raised " + got["pickle_error"])
+            elif got.get("pickled") != want or got.get("pickled_format") != fmt.deparse():
+                bad.append("pickle round trip changes the content")
+            return {"status": "ok", "problems": bad, "want": want[:6], "got": got}
+    return {"status": "no-result"}
+
+
+def _reader_pass(fmt: Format, stats, bounded):
     from tensora import Tensor
 
     problems = []
@@ -279,8 +371,9 @@ def reader_case(fmt: Format, stats):
         pass
 
     def body(m):
-        s, view = symbolic_structure(m, fmt)
+        s, view = symbolic_structure(m, fmt, bounded_dims=bounded)
         t = Tensor(s)
+        n0 = len(problems)
         try:
             got = list(t.items())
             want = oracle_entries(m, fmt, view)
@@ -298,9 +391,28 @@ def reader_case(fmt: Format, stats):
         except Exception as e:  # noqa: BLE001
             m.check()
             problems.append({"what": f"reader raised {type(e).__name__}: {e}"[:200], "format": fmt.deparse()})
+        if len(problems) > n0 and bounded:
+            # replay on the real cffi-backed implementation before reporting
+            try:
+                dims, indices, vals = concrete_structure(m, fmt, view)
+                rp = replay_reader(fmt, dims, indices, vals)
+            except Exception as e:  # noqa: BLE001
+                rp = {"status": "replay-error", "error": f"{type(e).__name__}: {e}"[:200]}
+            for p in problems[n0:]:
+                p["replay"] = rp
+                p["structure"] = {"dims": dims, "indices": indices} if rp.get("status") != "replay-error" else None
+            raise _Stop()
+
+    class _Stop(Exception):
+        pass
 
     with fake_ffi():
-        st = pyproxy.explore(base, body, max_paths=4000)
+        try:
+            st = pyproxy.explore(base, body, max_paths=4000)
+        except _Stop:
+            from ..kse import Stats
+
+            st = Stats()
     stats["paths"] += st.paths
     stats["queries"] += st.queries
     stats["solver_s"] += st.solver_s
@@ -486,6 +598,76 @@ def lol_case(fmt: Format, dims, stats):
     return problems
 
 
+def replay_writer(p):
+    """Real cffi-backed entry point on the concrete coordinates (values 1.0, 2.0, ...)."""
+    import json
+    import os
+    import subprocess
+    import sys
+
+    script = r"""
+import json, sys
+spec = json.load(sys.stdin)
+from tensora import Tensor
+coords = [tuple(c) for c in spec["coords"]]
+vals = [float(k + 1) for k in range(len(coords))]
+dims = tuple(spec["dimensions"])
+out = {}
+try:
+    if spec["entry"] == "from_soa" and dims:
+        t = Tensor.from_soa(tuple([c[d] for c in coords] for d in range(len(dims))), vals, dimensions=dims, format=spec["format"])
+    elif spec["entry"] == "from_dok":
+        t = Tensor.from_dok(dict(zip(coords, vals)), dimensions=dims, format=spec["format"])
+        d = dict(zip(coords, vals)); coords = list(d); vals = list(d.values())
+    else:
+        t = Tensor.from_aos(coords, vals, dimensions=dims, format=spec["format"])
+    out["accepted"] = True
+    out["items"] = [[list(c), v] for c, v in t.items()]
+    out["format"] = t.format.deparse(); out["dimensions"] = list(t.dimensions)
+    if spec.get("target"):
+        out["converted"] = [[list(c), v] for c, v in t.to_format(spec["target"]).items()]
+except Exception as e:
+    out["accepted"] = False
+    out["error"] = type(e).__name__
+want = {}
+for c, v in zip(coords, vals):
+    want[c] = want.get(c, 0.0) + v
+out["want"] = [[list(c), v] for c, v in sorted(want.items())]
+print("RESULT " + json.dumps(out))
+"""
+    env = dict(os.environ)
+    env["PYTHONPATH"] = os.path.join(os.environ.get("TENSORA_VERIF_REPO", "/repo"), "src")
+    r = subprocess.run([sys.executable, "-c", script], input=json.dumps(p), capture_output=True, text=True, env=env, timeout=120)
+    if r.returncode != 0:
+        return {"status": "crash", "stderr": r.stderr[-300:], "confirmed": True}
+    for line in r.stdout.splitlines():
+        if line.startswith("RESULT "):
+            got = json.loads(line[7:])
+            dims = p["dimensions"]
+            in_range = all(0 <= c[d] < dims[d] for c in p["coords"] for d in range(len(dims)))
+            bad = []
+            if not got["accepted"]:
+                if in_range:
+                    bad.append("in-range input rejected: " + got.get("error", ""))
+            elif not in_range:
+                bad.append("out-of-range coordinate accepted")
+            else:
+                stored = {tuple(c): v for c, v in got["items"]}
+                want = {tuple(c): v for c, v in got["want"]}
+                if any(stored.get(c, 0.0) != want.get(c, 0.0) for c in set(stored) | set(want)):
+                    bad.append(f"content differs: stored {sorted(stored.items())} expected {sorted(want.items())}")
+                if len(got["items"]) != len(stored):
+                    bad.append("a coordinate is stored twice")
+                if got["format"] != p["format"] or got["dimensions"] != list(dims):
+                    bad.append("format/dimensions not as given")
+                if "converted" in got:
+                    conv = {tuple(c): v for c, v in got["converted"]}
+                    if any(conv.get(c, 0.0) != want.get(c, 0.0) for c in set(conv) | set(want)):
+                        bad.append("to_format changes the content")
+            return {"status": "ok", "problems": bad, "confirmed": bool(bad), "got": {k: got[k] for k in got if k != "want"}}
+    return {"status": "no-result", "confirmed": False}
+
+
 def _reader_worker(fmt_text):
     from tensora.format import parse_format
 
@@ -549,9 +731,15 @@ def run(tier):
                 if p.get("harness"):
                     rep.harness_error(f"reader {p['format']}: {p['what']}")
                 else:
+                    rp = p.get("replay") or {}
+                    if rp.get("status") == "ok" and not rp.get("problems"):
+                        rep.harness_error(f"reader counterexample for {p['format']} did not reproduce on the cffi-backed Tensor: {p['what'][:120]}")
+                        continue
                     rep.violation({"name": "reader " + p["format"], "kind": "read-back-differs", "format": p["format"]},
                                   {"property": "C09", "part": "reader", **p})
         n_writer = 0
+        n_replayed = {}
+        not_replayed = {}
         for st, probs in pool.imap_unordered(_writer_worker, wjobs):
             n_writer += 1
             for k in tot:
@@ -577,6 +765,23 @@ def run(tier):
                                 firsts.append(f.modes[l])
                                 break
                     rec["level_mode"] = "dense" if firsts and all(mm == Mode.dense for mm in firsts) else "compressed"
+                replay_key = (kind, rec.get("level_mode"))
+                n_replayed[replay_key] = n_replayed.get(replay_key, 0) + 1
+                if n_replayed[replay_key] > 3:
+                    # same kind as counterexamples already replayed on the real implementation: counted only
+                    not_replayed[str(replay_key)] = not_replayed.get(str(replay_key), 0) + 1
+                    if common.match_finding(rep.findings, rec) is not None:
+                        rep.violation(rec, {"property": "C09", "part": "writer", **p})
+                    continue
+                if "coords" in p and p.get("entry") != "from_lol":
+                    q = dict(p)
+                    if "to_format" in p["what"]:
+                        q["target"] = p.get("target")
+                    rp = replay_writer(q)
+                    p["replay"] = rp
+                    if not rp.get("confirmed"):
+                        rep.harness_error(f"writer counterexample did not reproduce on the cffi-backed Tensor: {p['what'][:100]} {p['format']} {p.get('coords')}")
+                        continue
                 rep.violation(rec, {"property": "C09", "part": "writer", **p})
             if len(samples) < 4:
                 samples.append({"writer_job": wjobs[n_writer - 1] if n_writer <= len(wjobs) else None, "paths": st["paths"]})
@@ -585,7 +790,7 @@ def run(tier):
     coverage = {
         "states": tot["paths"], "transitions": tot["decisions"], "traces_validated_against_impl": 0,
         "samples": samples or [{"note": "none"}],
-        "reader_formats": n_reader, "writer_jobs": n_writer, "queries_discharged": tot["queries"],
+        "reader_formats": n_reader, "writer_jobs": n_writer, "writer_counterexamples_counted_not_replayed": not_replayed, "queries_discharged": tot["queries"],
         "solver_s": round(tot["solver_s"], 2),
         "bounds": {"reader": f"all formats of order <= {max_order}; <= {N_MAX} stored entries per compressed level; dense extents 0..{D_DENSE}; "
                              "crd values, values and compressed-only dimension sizes symbolic (sizes up to 2^31-1)",
